@@ -135,7 +135,9 @@ class SwitchNode(Node):
         t1 = self.fast.get(val, self.sentinel)
         t2 = self.fast.get(num_val, self.sentinel)
 
-        pos, retval = min(t1, t2)
+        # t2 (the numeric entry) is set by the first numerically equal key, so it is never later than t1;
+        # never compare the values themselves (str vs tuple raises TypeError, str vs str picked the wrong case)
+        pos, retval = min(t2, t1, key=lambda t: t[0])
 
         if pos is None:
             pos = len(self.unresolved) + 1
